@@ -92,14 +92,18 @@ Theorem ignored_other_session :
 Proof. exact Proofs.C12.ignored_other_session. Qed.
 Print Assumptions ignored_other_session.
 
-(* excluded members (inactive, disqualified, or not a member index): the 27 steps that go
-   through shouldAcceptMessage *)
+(* excluded members: inactive, disqualified, or not a member index at the 27 steps that go
+   through shouldAcceptMessage; not included in the signing attempt at the signing-done check;
+   the announcer and the coordination follower document no exclusion *)
 Theorem ignored_excluded :
   forall (addr_of : N -> N) (s : step) (x : ctx) (m : msg),
-    documents_excluded s = true ->
-    is_operating (x_grp x) (m_idx m) = false ->
+    match kind_of s with
+    | KPlain | KKeyed => is_operating (x_grp x) (m_idx m) = false
+    | KDone => ~ In (m_idx m) (x_attempt x)
+    | KAnnounce | KFollower => False
+    end ->
     acted (admit addr_of s x m) = false.
-Proof. exact Proofs.C12.ignored_excluded. Qed.
+Proof. exact Proofs.C12.ignored_excluded_prop. Qed.
 Print Assumptions ignored_excluded.
 
 Theorem excluded_not_operating :
@@ -115,7 +119,7 @@ Theorem spec_ok_sound :
     holds_index (x_ops x) (m_idx m) a /\
     (documents_self s = true -> ~ In (m_idx m) (x_self x)) /\
     same_session x m = true /\
-    (documents_excluded s = true -> is_operating (x_grp x) (m_idx m) = true).
+    excluded_at s x (m_idx m) = false.
 Proof. exact Proofs.C12.spec_ok_sound. Qed.
 Print Assumptions spec_ok_sound.
 
